@@ -316,11 +316,21 @@ macro_rules! leaky_impl {
                             }
                         }
                         4 => {
+                            // (no collect(): the items are pushed one by one so that a wrong
+                            // size_hint cannot make the harness reserve memory for 2^32 entries;
+                            // the lower bound of the hint is reported instead)
                             let r = catch_unwind(AssertUnwindSafe(|| {
-                                model.symbol_table().collect::<Vec<_>>()
+                                let it = model.symbol_table();
+                                let hint = it.size_hint().0;
+                                let mut t = Vec::new();
+                                for e in it {
+                                    t.push(e);
+                                }
+                                (hint, t)
                             }));
                             match r {
-                                Ok(t) => {
+                                Ok((hint, t)) => {
+                                    out.push(hint as Int);
                                     let recs: Vec<Rec4> = t
                                         .into_iter()
                                         .map(|(s, c, pr)| (0, s as Int, c as Int, pr.get() as Int))
